@@ -23,6 +23,12 @@ def correct(value, ty):
     return value - base if signed and value.bit_length() == bits else value
 
 
+def rem(a, b):
+    """Remainder of truncating division: takes the sign of the dividend"""
+    r = abs(a) % abs(b)
+    return -r if a < 0 else r
+
+
 def enhance(f):
     """Create a new enhanced method that corrects for the given type"""
     return lambda ty, a, b: correct(f(a, b), ty)
@@ -37,7 +43,7 @@ class ConstantFolder(BlockPass):
             "+": enhance(operator.add),
             "-": enhance(operator.sub),
             "*": enhance(operator.mul),
-            "%": enhance(operator.mod),
+            "%": enhance(rem),
             "<<": enhance(operator.lshift),
             ">>": enhance(operator.rshift),
         }
@@ -103,7 +109,9 @@ class ConstantFolder(BlockPass):
                     a = self.eval_const(instruction.a.b)
                     b = self.eval_const(instruction.b)
                     assert a.ty is b.ty
-                    cn = ir.Const(a.value + b.value, "new_fold", a.ty)
+                    cn = ir.Const(
+                        correct(a.value + b.value, a.ty), "new_fold", a.ty
+                    )
                     block.insert_instruction(
                         cn, before_instruction=instruction
                     )
@@ -124,7 +132,9 @@ class ConstantFolder(BlockPass):
                     a = self.eval_const(instruction.a.b)
                     b = self.eval_const(instruction.b)
                     assert a.ty is b.ty
-                    cn = ir.Const(a.value + b.value, "new_fold", a.ty)
+                    cn = ir.Const(
+                        correct(a.value + b.value, a.ty), "new_fold", a.ty
+                    )
                     block.insert_instruction(
                         cn, before_instruction=instruction
                     )
